@@ -15,7 +15,8 @@ RULE = (
     "quiescence. oracle: the set of observed counts is identical for N and 2N (so it cannot grow with the run length) and its "
     "maximum is below k + sum over stages (2*capacity+2); eager: no mailbox ever holds more than its capacity (every state); lazy: "
     "whenever a sender's fetch gate opens, a driving subscriber is waiting for a message that is not in the mailbox (monitor on "
-    "the real fields at the gate decision)."
+    "the real fields at the gate decision). 16 further cells (graph@node=k) give one plugin its own, larger max_messages: every "
+    "mailbox is held to its INTENDED capacity (context option, or the plugin's own value for its own outputs), not to whatever the processor configured."
 )
 ASSUMPTIONS = [
     "schedules exhausted up to the delay bound only (stateless exploration); atomic steps = lock/condition/thread operations",
